@@ -108,7 +108,7 @@ def log(*a):
     print(*a, flush=True)
 
 def load_known():
-    p = os.path.join(ROOT, 'known_findings.json')
+    p = os.environ.get('VERIF_KNOWN_FINDINGS', os.path.join(ROOT, 'known_findings.json'))     # the override exists for testing the mechanism only
     if not os.path.exists(p):
         return []
     return json.load(open(p)).get('findings', [])
